@@ -630,8 +630,11 @@ class DebianCopyright(object):
                 # The updated CopyrightLicenseParagraph paragraph lines extend
                 # from its original start line to the end line of the
                 # CatchAllParagraph
-                start_line, _end_line = para1.line_numbers_by_field.get('license', (1, 1))
-                _start_line, end_line = para2.line_numbers_by_field.get('unknown', (1, 1))
+                first_line, end_line = para2.get_first_last_line_numbers()
+                # an empty license field has no lines of its own: the text then
+                # starts where the folded paragraph starts
+                start_line, _end_line = para1.line_numbers_by_field.get(
+                    'license', (first_line, end_line))
                 para1.line_numbers_by_field['license'] = (start_line, end_line,)
                 folded_previous = True
 
